@@ -6,7 +6,7 @@ WatcherEx + WatcherUpdatable), adapter attached, auto-save on:
   * a call that reports failure / no change, and any call while auto-notify is off -> none;
   * save_policy -> exactly one (update_for_save_policy if offered, else update())."""
 from ..core import Check
-from .. import mgmt
+from .. import mgmt, c20_partial
 from ..specs import truthy, desugar, abs_base, stores
 
 PROP = "C20"
@@ -354,6 +354,15 @@ def main():
     if chk.replay_file:
         import json
         c = (json.load(open(chk.replay_file)).get("case") or {})
+        if c.get("stratum") == "partial-watcher-minimal-adapter":
+            a = c["replay_args"]
+            bad = c20_partial.run_one(a[0], a[1], a[2], tuple(a[3]), a[4])
+            print("replay (partial watcher / minimal adapter):", a, "->", bad)
+            if bad:
+                print(f"VIOLATION property={chk.prop} replay={chk.replay_file}")
+                raise SystemExit(1)
+            print("replay passes: the implementation satisfies the spec on this call")
+            raise SystemExit(0)
         if c.get("stratum") == "watcher-replaced":
             return replay_swap(chk, c)
         if c.get("probed"):
@@ -371,11 +380,13 @@ def main():
         run_swap(chk, 1500)
         run_async(chk, 300)
         run_probed(chk, 100)
+        c20_partial.run(chk, 12)
     else:
         run(chk, 60)
         run_swap(chk, 150)
         run_async(chk, 30)
         run_probed(chk, 24)
+        c20_partial.run(chk, 2)
         if (chk.broken() or chk.anchor_changed) and not chk.spec_failures:
             run(chk, 300)
             if not chk.spec_failures:
